@@ -72,8 +72,25 @@ TRICKY_SPECIES = ["A", "AB", "S2", "B", "Ba", "s0", "c1", "D"]
 # names equal up to case: legal wherever the leaf assignment is explicit (species inference from
 # leaf names is documented as case-insensitive, so these are never used with inference)
 CASE_PAIR_SPECIES = ["A", "a", "Ab", "AB", "S2", "s2", "B", "b"]
+# species names with underscores, some of them underscore-prefixes of others: the documented
+# inference of the species of a leaf `<species>_<suffix>` takes the first (shortest) matching
+# prefix, case-insensitively
+UNDERSCORE_SPECIES = ["eco", "eco_k12", "eco_k12_b", "Sal", "sal_x", "B_sub", "b", "K"]
+
+
+def infer_species(leaf, species_names):
+    """The documented rule of get_species_mapping, written independently."""
+    lowered = {}
+    for name in species_names:
+        lowered[name.lower()] = name
+    parts = leaf.split("_")
+    for i in range(1, len(parts)):
+        prefix = "_".join(parts[:i]).lower()
+        if prefix in lowered:
+            return lowered[prefix]
+    return None
 FAMILIES = ["a", "b", "c", "d", "e", "f"]
-TRICKY_FAMILIES = ["g10", "g2", "B", "a", "c_1", "G3"]
+TRICKY_FAMILIES = ["g10", "16S", "g2", "B", "a", "c_1"]
 
 
 @st.composite
@@ -123,7 +140,8 @@ def _costs(draw, labelled, coherent=True):
 
 @st.composite
 def _input(draw, labelled, max_obj, max_sp, max_fam, polytomy=False, coherent=True,
-           min_obj=1, single_family=False, chain=False, case_pairs=False):
+           min_obj=1, single_family=False, chain=False, case_pairs=False,
+           underscore_names=False):
     if chain:
         # swarm mode "deep chain": a 5-leaf caterpillar over 2-3 species - the shape on which
         # inheritance chains of the unordered model and path-dependent decoding live
@@ -140,6 +158,8 @@ def _input(draw, labelled, max_obj, max_sp, max_fam, polytomy=False, coherent=Tr
     else:
         pool = SPECIES if draw(st.integers(0, 3)) else (
             CASE_PAIR_SPECIES if case_pairs and draw(st.booleans()) else TRICKY_SPECIES)
+        if underscore_names and draw(st.integers(0, 5)) == 0:
+            pool = UNDERSCORE_SPECIES
         nsp = draw(_size(1, max_sp))
         species = draw(_shape(list(pool[:nsp]), 3 if polytomy else 2))
         nobj = draw(_size(min_obj, max_obj))
@@ -154,6 +174,16 @@ def _input(draw, labelled, max_obj, max_sp, max_fam, polytomy=False, coherent=Tr
         "syn": None,
         "root_order": None,
     }
+    if pool is UNDERSCORE_SPECIES:
+        names = list(pool[:nsp])
+        intended = {leaf: next(sp for sp in sorted(names, key=len, reverse=True)
+                               if leaf.startswith(sp + "_")) for leaf in leaves}
+        if draw(st.booleans()):
+            # no leaf assignment in the document: the species are inferred from the names
+            spec["infer"] = True
+            spec["leaf_species"] = {leaf: infer_species(leaf, names) for leaf in leaves}
+        else:
+            spec["leaf_species"] = intended
     if draw(st.integers(0, 3)) == 0:
         # colour annotations on object-tree nodes (by pre-order index of all nodes)
         spec["colors"] = {str(draw(st.integers(0, 2 * nobj))): draw(st.sampled_from(
@@ -172,6 +202,8 @@ def _input(draw, labelled, max_obj, max_sp, max_fam, polytomy=False, coherent=Tr
                 sub = list(draw(st.permutations(sub)))
             syn[leaf] = sub
         spec["syn"] = syn
+        # through the API a synteny may be any sequence, not only the lists that JSON yields
+        spec["syn_as"] = draw(st.sampled_from(["list", "list", "list", "tuple"]))
         if consistent and spec["named"] in (0, 1) and nobj > 1 and draw(st.integers(0, 3)) == 0:
             # named == 0: the root is unnamed, so the prescribed root synteny cannot be written
             # in the document; it is attached through the API (keyed by the root node)
@@ -256,7 +288,7 @@ def _case(draw, pid, tier):
     inputs = [
         draw(_input(labelled, max_obj, max_sp, max_fam, polytomy, coherent,
                     min_obj=2 if pid in ("C08",) else 1, single_family=single_family,
-                    chain=chain, case_pairs=True))
+                    chain=chain, case_pairs=True, underscore_names=True))
         for _ in range(ninputs)
     ]
     ops = []
@@ -377,6 +409,8 @@ def spec_document(spec):
             model.EdgeEvent.SEGMENTAL_LOSS: costs["sloss"],
         },
     }
+    if spec.get("infer"):
+        del doc["leaf_object_species"]  # inferred from the `<species>_<suffix>` leaf names
     if spec["syn"] is not None:
         syn = {leaf: list(s) for leaf, s in spec["syn"].items()}
         if spec["root_order"] is not None:
@@ -395,6 +429,9 @@ def build_input(spec):
         if spec["root_order"] is not None and obj.object_tree not in obj.leaf_syntenies:
             # unnamed root: the prescribed root synteny is given through the API
             obj.leaf_syntenies[obj.object_tree] = list(spec["root_order"])
+        if spec.get("syn_as") == "tuple":
+            for node in list(obj.leaf_syntenies):
+                obj.leaf_syntenies[node] = tuple(obj.leaf_syntenies[node])
         return obj
     return model.ReconciliationInput.from_dict(doc)
 
@@ -1083,6 +1120,7 @@ def derive(spec, kind, param):
         new["leaf_species"] = {omap[leaf]: smap[(spec.get("leaf_species") or
                                                    spec_leaf_species(spec))[leaf]]
                                for leaf in oleaves}
+        new["infer"] = False  # the new names do not follow the naming convention
         fmap = {}
         if labelled:
             fams = sorted(set().union(*map(set, spec["syn"].values())) |
